@@ -92,7 +92,7 @@ void tsmSpace(const int height, const int maxSrc, const int maxTgt, const std::v
     forEachPattern(nLeaves, maxTgt, 0, 1, [&](const std::vector<long>& t){ tgtPatterns.push_back(t); });
     forEachPattern(nLeaves, maxSrc, args.slice, args.nbSlices, [&](const std::vector<long>& src){
         for(const auto& tgt : tgtPatterns){
-            if(rep.timeUp()){ rep.exhaustive = false; return; }
+            if(rep.timeUp()){ rep.cut(); return; }
             for(const int motif : motifs){
                 const long n = long(std::max(src.size(), tgt.size()));
                 const std::vector<long> bss = light ? std::vector<long>{1, 100} : allBs ? blockSizesFor(n, true) : std::vector<long>{1, 2, 3, 100};
@@ -190,7 +190,7 @@ void periodicSpace(const int height, const int maxSubset, const std::vector<int>
     }
     forEachPattern(nLeaves, maxSubset, args.slice, args.nbSlices, [&](const std::vector<long>& leaves){
         for(const int motif : motifs) for(const int boxId : boxIds) for(const long extra : extras){
-            if(rep.timeUp()){ rep.exhaustive = false; return; }
+            if(rep.timeUp()){ rep.cut(); return; }
             for(const long bs : blockSizesFor(long(leaves.size()), maxSubset == 0 || leaves.size() <= 4)) for(int og = 0 ; og < 2 ; ++og){
                 Spec s = makeSpec(Dim, height, leaves, motif, boxes()[boxId], bs, og != 0, TbfDefaultLastLevelPeriodic);
                 if(pg.begin("single extra=" + std::to_string(extra) + " " + s.str())) evalPeriodic<Dim>(s, extra, false, rep);
